@@ -469,7 +469,7 @@ func refLeastModel(facts []Pred, rules []Rule) (map[string]bool, bool) {
 }
 
 func runC05(c *Ctx) {
-	c.Rule = "random Datalog programs over a small vocabulary (1-4 predicates incl. default symbols, arities 0-3, constants of every type incl. sets, 2-4 variable names, bodies of 0-4 atoms, repeated variables, self-joins, recursion, unbound head variables, error-free and erroring expressions); odometer shapes (all facts share one name; the only match is the last fact; no match for the last atom); QUERY cases for single-rule application. Non-trivial = the run derived at least one new fact through a rule with >= 2 body atoms, or a QUERY returned >= 1 instance; distinct = distinct canonical case encodings. Expression-free successful runs are cross-checked against an independent in-harness least-model computation."
+	c.Rule = "random Datalog programs over a small vocabulary (1-4 predicates incl. default symbols, arities 0-3, constants of every type incl. sets, 2-4 variable names, bodies of 0-4 atoms, repeated variables, self-joins, recursion, unbound head variables, error-free and erroring expressions); odometer shapes (all facts share one name; the only match is the last fact; no match for the last atom); QUERY cases for single-rule application; ODO cases: the order and multiplicity in which Rule.Apply emits index tuples for a given match table, exhaustive over all tables for small shapes and random for up to 5 predicates x 7 facts, against Model/Odometer.combos (proved equal to the lexicographic specification and to solve). Non-trivial = the run derived at least one new fact through a rule with >= 2 body atoms, or a QUERY returned >= 1 instance; distinct = distinct canonical case encodings. Expression-free successful runs are cross-checked against an independent in-harness least-model computation."
 	r := NewRng(c.Seed)
 	n := 4000
 	if c.Thorough {
@@ -612,6 +612,7 @@ func runC05(c *Ctx) {
 			c.Sample(map[string]string{"stream": "query", "case": sx, "go": res})
 		}
 	}
+	odoStream(c, r)
 }
 
 func hasExprs(rules []Rule) bool {
